@@ -379,6 +379,89 @@ def busy_consumer(res, blockwise, n_parked, ending):
         w.dispose()
 
 
+def resumed_consumer(res, blockwise, n_between, ending):
+    """The application waits for the next notification with a time-out of its own (asyncio.wait_for around __anext__), the wait times
+    out once, n notifications arrive before it comes back to the same iterator, then it goes on: it gets the freshest one and
+    everything after it, and the end of the observation."""
+    w = World()
+    try:
+        cli = w.add_context("cli", *CLI)
+        srv = w.add_peer(Notifier("srv", *SRV))
+        m = Message(code=GET, uri_path=["obs"], observe=0)
+        m.remote = cli.remote(SRV)
+        req = cli.ctx.request(m, handle_blockwise=blockwise)
+        its, itend, timeouts = [], [], []
+        resume = asyncio.Event()
+
+        async def consume():
+            it = req.observation.__aiter__()
+            try:
+                try:
+                    its.append(bytes((await asyncio.wait_for(it.__anext__(), 1.0)).payload))
+                except asyncio.TimeoutError:
+                    timeouts.append(w.loop.time())
+                    await resume.wait()
+                while True:
+                    its.append(bytes((await it.__anext__()).payload))
+            except StopAsyncIteration:
+                itend.append("end")
+            except BaseException as e:
+                itend.append(e)
+        w.loop.create_task(consume())
+        w.loop.settle()
+
+        def pump():
+            while w.pool:
+                w.deliver(w.pool[0])
+        pump()
+        srv.first_response(5, b"first")
+        pump()
+        w.loop.advance(1.5)            # the application's own time-out strikes: its wait is cancelled
+        case = {"resumed_consumer": [blockwise, n_between, ending]}
+        res.evaluations += 1
+        res.traces += 1
+        v, sent = 5, []
+        for k in range(n_between):
+            v += 1
+            sent.append(b"n%d" % (k + 1))
+            srv.notify(v, sent[-1], con=False)
+            pump()
+        resume.set()
+        w.loop.settle()
+        v += 1
+        sent.append(b"after")
+        srv.notify(v, b"after", con=False)
+        pump()
+        if ending == "icmp":
+            cli.receive_error(SRV, errno.ECONNREFUSED)
+            last = None
+        else:
+            srv.notify(None, b"final", con=False, code=69)
+            last = b"final"
+        pump()
+        w.loop.settle()
+        want_tail = [b"after"] + ([last] if last else [])
+        pre = its[:len(its) - len(want_tail)]
+        ok_stream = len(timeouts) == 1 and its[-len(want_tail):] == want_tail and (n_between == 0 or pre[-1:] == sent[n_between - 1:n_between]) \
+            and all(x in sent for x in pre) and pre == sorted(pre, key=sent.index)
+        ok_end = len(itend) == 1 and (itend[0] == "end" or isinstance(itend[0], error.Error)) and (ending != "icmp" or isinstance(itend[0], error.Error))
+        if not ok_stream:
+            res.violate(Violation("delivered-stream", {"freshest before resuming": sent[n_between - 1:n_between], "then": want_tail}, its,
+                                  "protocol.py:ClientObservation._Iterator", case, trace=w.trace[-20:], key="resumed:%s" % ending))
+        if not ok_end:
+            res.violate(Violation("termination-signal", "the iteration ends (with a library error for a transport error)", [repr(x) for x in itend],
+                                  "protocol.py:ClientObservation._Iterator", case, key="resumed-end:%s" % ending))
+        for msg, e in w.loop_exceptions():
+            res.violate(Violation("loop-exception", "none", core.exc_desc(e) if e else msg, core.site_of(e) if e else "loop", case,
+                                  key=type(e).__name__ if e else msg[:40]))
+        res.signatures.add(core.digest(("resumed", blockwise, n_between, ending)))
+        res.states.add(core.digest(("resumed", blockwise, n_between, ending, its)))
+        res.outcomes.add(core.digest(("resumed", len(its))))
+        res.transitions += 3 + n_between
+    finally:
+        w.dispose()
+
+
 def job(arg):
     kind, first, tier = arg
     res = Result()
@@ -437,6 +520,9 @@ def job(arg):
             for n_parked in (0, 1, 2, 3):
                 for ending in ("icmp", "404", "205"):
                     busy_consumer(res, bw, n_parked, ending)
+            for n_between in (0, 1, 2):
+                for ending in ("icmp", "205"):
+                    resumed_consumer(res, bw, n_between, ending)
             # transport error before the first response
             run_sequence(res, bw, 5, (("icmp0",),))
             run_sequence(res, bw, 5, (("icmp0",), small[0]))
@@ -465,6 +551,9 @@ def run(tier, seed, jobs):
 
 def replay(case, scenario, seed):
     res = Result()
+    if "resumed_consumer" in case:
+        resumed_consumer(res, *case["resumed_consumer"])
+        return [v for v, n in res.violations.values()]
     if "busy_consumer" in case:
         busy_consumer(res, *case["busy_consumer"])
         return [v for v, n in res.violations.values()]
